@@ -352,6 +352,14 @@ def engine_cases(ctx) -> list[dict]:
                         add(kind="policy", policy="lifo", spec=spec, name=name, max_steps=steps, c15=meta)
                     if thorough and k in (1, emax + 1):
                         add(kind="policy", policy="redeliver", spec=spec, name=name, max_steps=steps, c15=meta)
+    # F4: a cancel processed before a queued JumpToStage is handled: the jump must not re-arm anything
+    for name in ("self_loop", "cycle2", "side_fanin"):
+        build, src, tgt, backward = shapes()[name]
+        spec = {"stages": build(3)}
+        meta = {"shape": name, "k": 3, "max_jumps": None, "placement": "none", "source": src, "target": tgt, "backward": backward, "cancel": True}
+        for at in (range(4, 30) if thorough else range(5, 26, 3)):
+            for pol in (("fifo", "random", "lifo") if thorough else ("fifo", "random")):
+                add(kind="inject", what="cancel", at=at, policy=pol, spec=spec, name=name + "_cancel", max_steps=200, c15=meta)
     return cases
 
 
@@ -402,9 +410,16 @@ def monitor(out) -> list[Violation]:
     rearms: dict[str, list] = {r: [] for r in order}          # audit seqs of the accepted jumps whose re-arm set holds the stage
     skipped_at: dict[str, int] = {}
     crashes = sum(1 for a, r in zip(out["actions"], out["results"]) if a[0] == "X" and r.get("crashed"))
+    cancel_seq = next((row["seq"] for row in audit if row["kind"] == "canceled" and str(row["new"]) in ("1", "True", "true")), None)
     for ai, a in enumerate(out["actions"]):
         rows = by_action.get(ai, [])
         is_jump = a[0] in ("D", "X") and out["results"][ai].get("polled") == "JumpToStage"
+        if is_jump and cancel_seq is not None and (marks[ai - 1] if ai > 0 else 0) >= cancel_seq:
+            touched = [r for r in rows if r["kind"] in ("stage", "task", "push")]
+            if touched:
+                vs.append(Violation(what=f"a JumpToStage handled after the cancel was accepted still changed {[(r['kind'], r['old'], r['new']) for r in touched][:6]}",
+                                    signature="jump-after-cancel", replay=_replay(out, {"action_index": ai})))
+            continue
         if is_jump and rows:
             typ, payload = pushed.get(a[1], (None, {}))
             src = id_ref.get(payload.get("stage_id"))
@@ -471,6 +486,8 @@ def monitor(out) -> list[Violation]:
     # (b) a loop asked for k <= max iterations gets exactly k (in-order delivery, drained queue)
     k = meta.get("k")
     src = meta.get("source")
+    if meta.get("cancel"):
+        src = None
     if src is not None and k is not None and k != FOREVER and case.get("policy") == "fifo" and out["quiescent"] and crashes == 0:
         emax = effective_max(spec, src)
         kk = k if meta.get("backward") else min(k, 1)
